@@ -28,6 +28,9 @@ def main(argv=None):
     ap.add_argument("--workers", type=int, default=None)
     a = ap.parse_args(argv)
     seed = int(os.environ.get("VERIF_SEED", "0") or 0)
+    # time limits by tier (read by the harness at import): a path / task that exceeds them is a failed `terminates` obligation
+    os.environ.setdefault("VERIF_PATH_TIMEOUT", "60" if a.tier == "quick" else "600")
+    os.environ.setdefault("VERIF_TASK_TIMEOUT", "300" if a.tier == "quick" else "3000")
     t0 = time.time()
     from . import report
     try:
